@@ -65,9 +65,3 @@ def register(K):
                returns="val", may_raise=["Exception", "exception.UnsafeFileError"], closure_env=closure_env, ensures=[])
     K.contract("hook.activate_safe_ml_environment.<locals>.new_loads", params="__closure__: function, data: val, *args: val, **kwargs: val",
                returns="val", may_raise=["Exception", "exception.UnsafeFileError"], closure_env=closure_env, ensures=[])
-
-    @K.external("io.BytesIO")
-    def _bytesio(eng, st, args, kw, node):
-        r = st.alloc("stream")
-        st.log.append(("bytesio", vref(r, cls="stream"), args[0] if args else None))
-        return [(st, vref(r, cls="stream"))]
